@@ -238,6 +238,8 @@ def check(prog, run):
     # S7: the ordered map of collected root fields defines document order for the serial chain (shared with C04.K5)
     from . import c04
     c04.check_seen_scope(prog, run, "S7")
+    # a still-pending value taken for a finished one lets the next top-level field start early (shared with C08.R12)
+    c08.check_deferred_predicate(prog, run, "S8")
 
 
 def _s4(prog, run):
